@@ -13,6 +13,7 @@ import (
 	"time"
 
 	"verif/harness/evid"
+	"verif/harness/rig"
 )
 
 var frameRe = regexp.MustCompile(`^\s+(\S+)\(`)
@@ -216,4 +217,23 @@ func absorbChild(run *evid.Run, res childResult, prefix, violPrefix string) (vio
 		}
 	}
 	return violations
+}
+
+// daemonRaceReports reads the race detector's reports of a daemon started with DaemonOpts.Race and turns those
+// with an access in Dirk's own code into violations.
+func daemonRaceReports(run *evid.Run, d *rig.Daemon, what string) {
+	reports := parseRaceLogs(filepath.Join(d.Opts.Dir, "race.*"))
+	dirk := 0
+	for _, rep := range reports {
+		if rep.InDirk {
+			dirk++
+			if dirk <= 3 {
+				run.Violate(fmt.Sprintf("data race in the daemon (%s) with an access in Dirk code: %s <-> %s", what, rep.Accessors[0], rep.Accessors[1]), rep.Text)
+			}
+		} else {
+			run.Count("daemon_race_reports_outside_dirk", 1)
+		}
+	}
+	run.Count("daemon_race_reports_in_dirk", dirk)
+	run.Count("daemon_race_runs", 1)
 }
